@@ -154,7 +154,13 @@ def hostile_socks(rng, oip, oport):
 
 
 def hostile_upstream_http(rng):
-    k = rng.randrange(9)
+    k = rng.randrange(10)
+    if k == 9:
+        # a well-formed reply (refusal or grant) whose header announces a length nobody could hold: sizes are the peer's to choose
+        n = rng.choice([b"18446744073709551615", b"18446744073709551616", b"9223372036854775807", b"9223372036854775808", b"70368744177664", b"4294967296", b"-1", b"1e99"])
+        code = rng.choice([b"403 Forbidden", b"407 Proxy Authentication Required", b"502 Bad Gateway", b"200 OK", b"503 Service Unavailable"])
+        hdr = rng.choice([b"Content-Length", b"Content-Length", b"content-length", b"Session-Id", b"Retry-After"])
+        return b"HTTP/1.1 " + code + b"\r\n" + hdr + b": " + n + b"\r\n\r\n" + rng.choice([b"", b"no", b"x" * 300])
     if k == 0:
         return mutate(rng, b"HTTP/1.1 200 Connection established\r\n\r\n")
     if k == 1:
